@@ -12,7 +12,7 @@ open Spec (Res)
 /-! ### specification side -/
 
 /-- the value `copy` duplicates -/
-def copySrc (so : Spec.Opts) (doc : Value) (ftoks : List Bytes) : Res Value :=
+def eng_copySrc (so : Spec.Opts) (doc : Value) (ftoks : List Bytes) : Res Value :=
   match ftoks with
   | [] => .ok doc
   | _ :: _ => (Spec.atParent so (Spec.getIn so false) doc ftoks).bind fun pv => .ok pv.2
@@ -27,13 +27,13 @@ theorem spec_copy {so : Spec.Opts} {sz acc : Nat} {doc : Value} {sop : Spec.Op} 
     (hk : sop.kind = .copy) (hp : Spec.parsePointer sop.path = some ptoks)
     (hf : Spec.parsePointer sop.frm = some ftoks) (hl : so.limit = 0) :
     Spec.applyOp so sz acc doc sop =
-      (copySrc so doc ftoks).bind fun v =>
+      (eng_copySrc so doc ftoks).bind fun v =>
         match ptoks with
         | [] => .unspec
         | _ :: _ =>
           (Spec.atParent so (fun p _ => .ok (p, ())) doc ptoks).bind fun _ =>
             (Spec.atParent so (Spec.addIn so v) doc ptoks).bind fun vb => .ok (vb.1, acc + sz) := by
-  simp only [Spec.applyOp, hp, hk, hf, hl, copySrc]
+  simp only [Spec.applyOp, hp, hk, hf, hl, eng_copySrc]
   cases ftoks with
   | nil =>
     simp only [Res.bind]
@@ -89,7 +89,7 @@ theorem atParent_same {β} (so : Spec.Opts) (f : Value → Bytes → Res (Value 
 
 /-! ### implementation side, in named pieces -/
 
-def afterW (r : Root) {α} : Walk α → Option Root
+def eng_afterW (r : Root) {α} : Walk α → Option Root
   | .done con _ => some { r with con := con }
   | .doneSelf s _ => some { r with self := s }
   | _ => none
@@ -127,16 +127,16 @@ def copyTail (o : Opts) (r2 : Root) (acc : Int) (op : Op) (f : Bytes) : Outcome 
     let acc' := acc + (deepCopy o.esc val).2
     if o.limit > 0 ∧ acc' > o.limit then .err .copySize
     else
-      match afterW r2 (withPath o r2 op.path (actAdd o (deepCopy o.esc val).1)) with
+      match eng_afterW r2 (withPath o r2 op.path (actAdd o (deepCopy o.esc val).1)) with
       | some r3 => .ok (r3, acc')
       | none => failOfW (withPath o r2 op.path (actAdd o (deepCopy o.esc val).1))
 
-theorem opCopy_eq (o : Opts) (r : Root) (acc : Int) (op : Op) (f : Bytes) (h : op.frm = some f) :
+theorem eng_opCopy_eq (o : Opts) (r : Root) (acc : Int) (op : Op) (f : Bytes) (h : op.frm = some f) :
     opCopy o r acc op =
-      match afterW r (copySource o r f) with
+      match eng_afterW r (copySource o r f) with
       | none => failOfW (copySource o r f)
       | some r1 =>
-        match afterW r1 (withPath o r1 op.path actProbe) with
+        match eng_afterW r1 (withPath o r1 op.path actProbe) with
         | none => failOfW (withPath o r1 op.path actProbe)
         | some r2 => copyTail o r2 acc op f := by
   simp only [opCopy, h]
@@ -150,7 +150,7 @@ def fstOut : Outcome (Root × Int) → Outcome Root
 theorem copySource_root (o : Opts) (r : Root) (hc : isCon r.con = true) :
     copySource o r [] = .done r.con r.self := by
   have hs : splitPath [] = some ([], []) := by simp [splitPath, splitSlash]
-  simp only [copySource, withPath, hs, walk_nil]
+  simp only [copySource, withPath, hs, eng_walk_nil]
   cases hcon : r.con <;> simp [hcon, isCon] at hc <;> simp [conGet, doneOf]
 
 theorem actCopySrc_ref {o : Opts} {e : Bool} {key : Bytes} (hkey : key ≠ []) :
@@ -184,19 +184,19 @@ theorem copySource_walkRef {o : Opts} {e : Bool} {r : Root} {f : Bytes} {ft : By
 /-- first walk of `copy`: the source container is found (and parsed on the way) or the copy fails -/
 theorem copy_phase1 {o : Opts} {e : Bool} {r : Root} {f : Bytes} {ftoks : List Bytes}
     (hr : InvRoot e r) (hpf : Spec.parsePointer f = some ftoks) :
-    match copySrc (specOpts o) (den r.con) ftoks with
-    | .ok _ => ∃ r1, afterW r (copySource o r f) = some r1 ∧ InvRoot e r1 ∧ den r1.con = den r.con
-    | .fail _ => afterW r (copySource o r f) = none ∧ ∃ er, failOfW (copySource o r f) = .err er
+    match eng_copySrc (specOpts o) (den r.con) ftoks with
+    | .ok _ => ∃ r1, eng_afterW r (copySource o r f) = some r1 ∧ InvRoot e r1 ∧ den r1.con = den r.con
+    | .fail _ => eng_afterW r (copySource o r f) = none ∧ ∃ er, failOfW (copySource o r f) = .err er
     | .unspec => True := by
   cases ftoks with
   | nil =>
     have hnil : f = [] := (parsePointer_nil_iff hpf).1 rfl
     subst hnil
-    simp only [copySrc, copySource_root o r hr.2, afterW]
+    simp only [eng_copySrc, copySource_root o r hr.2, eng_afterW]
     exact ⟨_, rfl, hr, rfl⟩
   | cons ft fts =>
     have hw := copySource_walkRef (o := o) hr hpf
-    simp only [copySrc]
+    simp only [eng_copySrc]
     cases hres : Spec.atParent (specOpts o) (Spec.getIn (specOpts o) false) (den r.con) (ft :: fts) with
     | unspec => trivial
     | fail c =>
@@ -219,7 +219,7 @@ theorem copy_phase1 {o : Opts} {e : Bool} {r : Root} {f : Bytes} {ftoks : List B
 /-- reading the source again in a later state with the same value -/
 theorem copy_src {o : Opts} {e : Bool} {r2 : Root} {doc : Value} {f : Bytes} {ftoks : List Bytes}
     (hr : InvRoot e r2) (hd : den r2.con = doc) (hpf : Spec.parsePointer f = some ftoks) :
-    match copySrc (specOpts o) doc ftoks with
+    match eng_copySrc (specOpts o) doc ftoks with
     | .ok v => ∃ val, srcOf o r2 f = .ok val ∧ Inv e val ∧ den val = v
     | _ => True := by
   subst hd
@@ -227,13 +227,13 @@ theorem copy_src {o : Opts} {e : Bool} {r2 : Root} {doc : Value} {f : Bytes} {ft
   | nil =>
     have hnil : f = [] := (parsePointer_nil_iff hpf).1 rfl
     subst hnil
-    simp only [copySrc, srcOf, if_true]
+    simp only [eng_copySrc, srcOf, if_true]
     exact ⟨_, rfl, hr.1, rfl⟩
   | cons ft fts =>
     have hne : f ≠ [] := fun h => by
       have := (parsePointer_nil_iff hpf).2 h; cases this
     have hw := copySource_walkRef (o := o) hr hpf
-    simp only [copySrc]
+    simp only [eng_copySrc]
     cases hres : Spec.atParent (specOpts o) (Spec.getIn (specOpts o) false) (den r2.con) (ft :: fts) with
     | unspec => trivial
     | fail c => trivial
@@ -259,9 +259,9 @@ theorem opCopy_refines {o : Opts} {r : Root} {op : Op} {sop : Spec.Op} {f : Byte
     cases hpf : Spec.parsePointer f with
     | none => rw [spec_copy_none hk hp' (by rw [hfrm]; exact hpf)]; trivial
     | some ftoks =>
-      rw [spec_copy hk hp' (by rw [hfrm]; exact hpf) (by simp [specOpts, hl]), opCopy_eq o r acci op f hfo]
+      rw [spec_copy hk hp' (by rw [hfrm]; exact hpf) (by simp [specOpts, hl]), eng_opCopy_eq o r acci op f hfo]
       have h1 := copy_phase1 (o := o) hr hpf
-      cases hsrc : copySrc (specOpts o) (den r.con) ftoks with
+      cases hsrc : eng_copySrc (specOpts o) (den r.con) ftoks with
       | unspec => trivial
       | fail c =>
         rw [hsrc] at h1
@@ -296,7 +296,7 @@ theorem opCopy_refines {o : Opts} {r : Root} {op : Op} {sop : Spec.Op} {f : Byte
             simp only [WalkRef] at hw2
             obtain ⟨con2, a, hw, h21, h22, h23, _⟩ := hw2
             rw [hw]
-            simp only [afterW]
+            simp only [eng_afterW]
             have hd2 : den con2 = den r.con := by
               rw [h23]
               exact atParent_same _ _ (fun p t pb h => by cases h; rfl) _ _ (by simp) _ hres2
@@ -323,7 +323,7 @@ theorem opCopy_refines {o : Opts} {r : Root} {op : Op} {sop : Spec.Op} {f : Byte
               simp only [WalkRef] at hw3
               obtain ⟨con3, a3, hw', h31, h32, h33, _⟩ := hw3
               rw [hw']
-              simp only [OpRef, afterW, fstOut]
+              simp only [OpRef, eng_afterW, fstOut]
               exact ⟨_, rfl, ⟨h31, h32⟩, h33⟩
 
 end Impl
